@@ -46,12 +46,22 @@ def schedqueue(nc, ops, aborting, tag):
             'INVARIANTS OneAtATime AtMostOnce OnlyPosted Fifo NothingTakenAfterAbortReturned\nPROPERTIES NoLostWakeup WorkerExitsAfterAbort\nCHECK_DEADLOCK TRUE\n' % (nc, ops, aborting))
 
 
+def tovec(n, fails):
+    return ('ToVec', 'tovec_%d_%s' % (n, 'err' if fails else 'ok'),
+            'SPECIFICATION Spec\nCONSTANTS NItems = %d\n Fails = %s\n WakerFirst = FALSE\nINVARIANTS ReadyOnlyAfterTerminal ResultIsEverything ResultIsTheError\nPROPERTY EventuallyReady\nCHECK_DEADLOCK FALSE\n'
+            % (n, 'TRUE' if fails else 'FALSE'))
+
+
 C19INV = ['AtMostOneTerminal', 'NothingStartedAfterTerminal', 'ExactlyOneAtTheEnd']
 CONC = {
     # property: (monitor flags of ConcProps.Judge, design-level models quick, thorough)
     'C19': (['C19'], [sinkconc(2, 2, C19INV)], [sinkconc(2, 2, C19INV), sinkconc(3, 1, C19INV), sinkconc(2, 3, C19INV)]),
     'C11': (['C11', 'C19'], [sinkconc(2, 2, ['AtMostOneTerminal'])], [sinkconc(3, 1, ['AtMostOneTerminal'])]),
     'C08': (['C08'], [schedqueue(2, 2, '{11}', '2x2_abort_inside')], [schedqueue(2, 2, '{11}', '2x2_abort_inside'), schedqueue(2, 3, '{}', '2x3'), schedqueue(3, 1, '{11}', '3x1')]),
+    'C09': (['C09'], [schedqueue(1, 3, '{13}', 'handoff_1x3_abort_in_last')], [schedqueue(1, 3, '{13}', 'handoff_1x3_abort_in_last'), schedqueue(2, 2, '{}', 'handoff_2x2')]),
+    'C15': (['C15'], [schedqueue(1, 2, '{12}', 'lifecycle')], [schedqueue(2, 2, '{11}', 'lifecycle2')]),
+    'C16': (['C16'], [], []),
+    'C18': (['C18'], [tovec(2, False), tovec(2, True)], [tovec(4, False), tovec(4, True)]),
     'C12': (['C12'], [subjconc('plain', 3, False), subjconc('plain', 3, True), subjconc('replay', 3, False, 'NoDup (KF-C12-replay-latesub-duplicate)'), subjconc('behavior', 3, False, 'NoDup (KF-C12-behavior-latesub-duplicate)')],
             [subjconc('plain', 4, False), subjconc('plain', 4, True), subjconc('replay', 4, False, 'NoDup (KF-C12-replay-latesub-duplicate)'), subjconc('behavior', 4, True, 'NoDup (KF-C12-behavior-latesub-duplicate)')]),
     'C05': (['C05'], [sinkconc(2, 2, ['UnsubStops'])], [sinkconc(2, 3, ['UnsubStops']), sinkconc(3, 1, ['UnsubStops'])]),
